@@ -92,6 +92,7 @@ PROPS = {
     },
     "C01": {
         "units": ["tau"],
+        "bounded_checks": ["trans"],
         "level": "other",
         "property_obligations": ["tau_star", "tau_star_rule", "tau_star_fo_head_rule", "tau_star_prop_head_rule", "tau_star_constraint_rule", "tau_body", "tau_b",
                                  "tau_b_first_order_literal", "tau_b_propositional_literal", "tau_b_comparison",
@@ -148,6 +149,7 @@ PROPS = {
     },
     "C08": {
         "units": ["nat"],
+        "bounded_checks": ["trans"],
         "level": "other",
         "property_obligations": ["natural_rule", "natural", "Program::mu", "natural_head", "natural_basic_head", "natural_choice_head", "natural_head_atom", "natural_head_interval",
                                  "natural_constraint", "fresh_variables_for_head_atom", "natural_body", "natural_b_literal", "natural_b_atom", "natural_comparison", "int_variables",
@@ -428,6 +430,16 @@ def run_property(pid, cfg, tier, seed, bless=False, t0=None):
                 reruns.append({"unit": u, "variant": " ".join(extra), "status": r["status"], "solver_ms": r.get("solver_ms")})
                 if r["status"] != "ok":
                     unstable.append(f"{u} under {' '.join(extra)}: {r['status']} {r.get('reason','')[:200]}")
+    # bounded stand-in on the real code (never counted as proved; see tools/bounded.py)
+    import bounded as bnd
+    bounded_runs = []
+    bounded_fail = []
+    for chk in cfg.get("bounded_checks", []):
+        br = bnd.run(chk, tier)
+        mine = [f for f in br.get("failures", []) if f.get("property") == pid]
+        bounded_runs.append({"check": chk, "status": br["status"] if br["status"] != "failing" or mine else "ok", "cmd": br.get("cmd"), "stats": br.get("stats"),
+                             "wall_s": br.get("wall_s"), "build_s": br.get("build_s"), "reason": br.get("reason"), "failing_inputs_for_this_property": len(mine)})
+        bounded_fail.extend(mine)
     # known findings
     known = load_known()
     open_findings = [k for k in known.get("findings", []) if k.get("property") == pid and k.get("status", "open") == "open"]
@@ -478,6 +490,8 @@ def run_property(pid, cfg, tier, seed, bless=False, t0=None):
             "types_extracted": [i["item"] for i in items if " fn " not in (" " + i["item"])],
             "extraction_drops": "derives, use lines, test modules, impl_node! (Display/FromStr/Node), doc comments inside types, and every function not named in the unit template",
             "bounded": cfg.get("bounded", []),
+            "bounded_stand_in": {"label": "bounded - runs the compiled real code on enumerated small inputs against an executable oracle; never counted as proved",
+                                 "runs": bounded_runs, "failing_inputs": bounded_fail[:10]},
             "complete_by_enumeration": cfg.get("complete_by_enumeration", []),
             "not_covered": cfg.get("not_covered", []),
             "vacuity_guards": {u: r.get("canaries") for u, r in results.items()},
@@ -490,7 +504,7 @@ def run_property(pid, cfg, tier, seed, bless=False, t0=None):
         },
         "assumptions": assumptions,
         "wall_s": wall,
-        "violations": len(violations),
+        "violations": len(violations) + len(bounded_fail),
     }
     evdir = os.environ.get("VERIF_EVIDENCE_DIR", os.path.join(VERIF, "evidence"))
     os.makedirs(evdir, exist_ok=True)
@@ -501,13 +515,36 @@ def run_property(pid, cfg, tier, seed, bless=False, t0=None):
     for k in open_findings:
         if k.get("static"):
             print(f"KNOWN-FINDING: property={pid} {k.get('what', '')}")
+    open_inputs = {k.get("bounded_input") for k in open_findings if k.get("bounded_input")}
+    for f in [f for f in bounded_fail if f["input"] in open_inputs]:
+        print(f"KNOWN-FINDING: property={pid} bounded input {f['input']}")
+    bounded_fail = [f for f in bounded_fail if f["input"] not in open_inputs]
+    if bounded_fail and not violations:
+        rpdir = os.environ.get("VERIF_REPLAY_DIR", os.path.join(VERIF, "replays"))
+        os.makedirs(rpdir, exist_ok=True)
+        rp = os.path.join(rpdir, f"{pid}.replay.txt")
+        with open(rp, "w") as fh:
+            fh.write(f"property {pid}: failing inputs of the real code (working tree of {vlib.REPO}), found by the bounded stand-in\n")
+            fh.write("Deductive check: " + ("undecided: " + "; ".join(undecided)[:600] if undecided else "all obligations discharged (the failing behaviour is outside the functions under contract, or allowed by an assumed contract)") + "\n")
+            fh.write(f"Re-run: /verif/check {pid} --tier {tier}\n\n")
+            for f in bounded_fail[:20]:
+                fh.write(f"== input: {f['input']}\n{f['detail']}\n\n")
+        for f in bounded_fail[:5]:
+            print(f"FAILING-INPUT {f['input']}: {f['detail'][:300]}")
+        print(f"VIOLATION property={pid} replay={rp}")
+        return 1
     if violations:
         rpdir = os.environ.get("VERIF_REPLAY_DIR", os.path.join(VERIF, "replays"))
         os.makedirs(rpdir, exist_ok=True)
         rp = os.path.join(rpdir, f"{pid}.replay.txt")
         with open(rp, "w") as fh:
             fh.write(f"property {pid}: failed obligations on the working tree of {vlib.REPO}\n")
-            fh.write("No concrete failing input: Verus reports no counterexamples (no-failing-input-found).\n")
+            if bounded_fail:
+                fh.write("Verus reports no counterexamples; the bounded stand-in found failing inputs of the real code:\n")
+                for f in bounded_fail[:20]:
+                    fh.write(f"== input: {f['input']}\n{f['detail']}\n\n")
+            else:
+                fh.write("No concrete failing input: Verus reports no counterexamples and the bounded stand-in found none (no-failing-input-found).\n")
             fh.write(f"Re-run: /verif/check {pid} --tier {tier}\n\n")
             for f in violations:
                 fh.write(f"== obligation {f['obligation']}\n")
@@ -515,11 +552,13 @@ def run_property(pid, cfg, tier, seed, bless=False, t0=None):
                     fh.write(m + "\n\n")
         for f in violations:
             print(f"FAILED-OBLIGATION {f['obligation']}: {f['messages'][0].splitlines()[0] if f['messages'] else ''}")
-        print(f"VIOLATION property={pid} replay={rp} no-failing-input-found")
+        for f in bounded_fail[:5]:
+            print(f"FAILING-INPUT {f['input']}: {f['detail'][:300]}")
+        print(f"VIOLATION property={pid} replay={rp}" + ("" if bounded_fail else " no-failing-input-found"))
         return 1
     if undecided:
         for u in undecided:
             print(f"UNDECIDED property={pid} reason={u[:1500]}")
         return 2
-    print(f"OK property={pid} tier={tier} obligations={len(ledger)} discharged={discharged} wall_s={wall}")
+    print(f"OK property={pid} tier={tier} obligations={len(ledger)} discharged={discharged} wall_s={wall}" + (" bounded=" + ",".join(f"{b['check']}:{b['status']}" for b in bounded_runs) if bounded_runs else ""))
     return 0
